@@ -307,6 +307,7 @@ func checkC06(c *Ctx) {
 				c.Eval(fmt.Sprintf("clone|fragment-%d|filled=%v", i, filled), true)
 			}
 		}
+		c06Flags(c, fmt.Sprintf("fragment-%d", i), build)
 		shares := 2
 		if !c.Quick() {
 			shares = 8
@@ -603,4 +604,119 @@ func c06SharePairs(key string, build func() *dst.File, mode string, r *rand.Rand
 		}
 	}
 	return recs
+}
+
+// ---- every scalar field, whatever its value ----
+
+// setFlags sets every boolean field of every node below n to true (by reflection).
+func setFlags(n dst.Node, seen map[dst.Node]bool) int {
+	if n == nil || reflect.ValueOf(n).IsNil() || seen[n] {
+		return 0
+	}
+	seen[n] = true
+	k := 0
+	v := reflect.ValueOf(n).Elem()
+	for i := 0; i < v.NumField(); i++ {
+		fv := v.Field(i)
+		name := v.Type().Field(i).Name
+		switch {
+		case name == "Decs" || name == "Obj" || name == "Scope" || name == "Imports" || name == "Unresolved":
+		case fv.Kind() == reflect.Bool:
+			if !fv.Bool() {
+				fv.SetBool(true)
+				k++
+			}
+		case fv.Kind() == reflect.Slice && fv.Type().Elem().Implements(dstNodeType):
+			for j := 0; j < fv.Len(); j++ {
+				if !fv.Index(j).IsNil() {
+					k += setFlags(fv.Index(j).Interface().(dst.Node), seen)
+				}
+			}
+		case fv.Type().Implements(dstNodeType) && (fv.Kind() == reflect.Ptr || fv.Kind() == reflect.Interface):
+			if !fv.IsNil() {
+				k += setFlags(fv.Interface().(dst.Node), seen)
+			}
+		}
+	}
+	return k
+}
+
+// scalarDiff walks two trees in parallel and names the first non-node field (flag, token, string,
+// number) whose values differ, or the first place where the shapes differ.
+func scalarDiff(a, b dst.Node, path string) string {
+	an, bn := a == nil || reflect.ValueOf(a).IsNil(), b == nil || reflect.ValueOf(b).IsNil()
+	if an || bn {
+		if an != bn {
+			return path + ": one side is nil"
+		}
+		return ""
+	}
+	if reflect.TypeOf(a) != reflect.TypeOf(b) {
+		return fmt.Sprintf("%s: %T vs %T", path, a, b)
+	}
+	va, vb := reflect.ValueOf(a).Elem(), reflect.ValueOf(b).Elem()
+	for i := 0; i < va.NumField(); i++ {
+		name := va.Type().Field(i).Name
+		fa, fb := va.Field(i), vb.Field(i)
+		p := fmt.Sprintf("%s.%s.%s", path, va.Type().Name(), name)
+		switch {
+		case name == "Decs" || name == "Obj" || name == "Scope" || name == "Imports" || name == "Unresolved":
+		case fa.Kind() == reflect.Slice && fa.Type().Elem().Implements(dstNodeType):
+			if fa.Len() != fb.Len() {
+				return fmt.Sprintf("%s: %d vs %d elements", p, fa.Len(), fb.Len())
+			}
+			for j := 0; j < fa.Len(); j++ {
+				var x, y dst.Node
+				if !fa.Index(j).IsNil() {
+					x = fa.Index(j).Interface().(dst.Node)
+				}
+				if !fb.Index(j).IsNil() {
+					y = fb.Index(j).Interface().(dst.Node)
+				}
+				if d := scalarDiff(x, y, fmt.Sprintf("%s[%d]", p, j)); d != "" {
+					return d
+				}
+			}
+		case fa.Type().Implements(dstNodeType) && (fa.Kind() == reflect.Ptr || fa.Kind() == reflect.Interface):
+			var x, y dst.Node
+			if !fa.IsNil() {
+				x = fa.Interface().(dst.Node)
+			}
+			if !fb.IsNil() {
+				y = fb.Interface().(dst.Node)
+			}
+			if d := scalarDiff(x, y, p); d != "" {
+				return d
+			}
+		default:
+			if !reflect.DeepEqual(fa.Interface(), fb.Interface()) {
+				return fmt.Sprintf("%s: original %v, clone %v", p, fa.Interface(), fb.Interface())
+			}
+		}
+	}
+	return ""
+}
+
+// c06Flags: Clone carries every scalar field of every node type -- as parsed, and with every boolean
+// field set (flags the parser only sets for unusual or damaged input, e.g. BlockStmt.RbraceHasNoPos).
+func c06Flags(c *Ctx, key string, build func() *dst.File) {
+	for _, flip := range []bool{false, true} {
+		f := build()
+		if f == nil {
+			return
+		}
+		n := 0
+		if flip {
+			n = setFlags(f, map[dst.Node]bool{})
+		}
+		c.Eval(fmt.Sprintf("clone-scalars|%s|all-flags-set=%v", key, flip), true)
+		var cl dst.Node
+		if msg := guard(func() { cl = dst.Clone(f) }); msg != "" {
+			c.Fail(Finding{Sig: "clone-panics", Input: key, What: msg, Replay: obj{"kind": "none"}})
+			return
+		}
+		if d := scalarDiff(f, cl, ""); d != "" {
+			c.Fail(Finding{Sig: "clone-drops-field", Input: key + "|" + d, What: fmt.Sprintf("%s (%d flags set by the harness): %s", key, n, d), Replay: obj{"kind": "none"}})
+		}
+	}
 }
